@@ -266,11 +266,15 @@ static void *arena_alloc(size_t size, BlockKind kind) {
     }
     if (!reused) {
         size_t o = g_bump + RZ;
-        if (o + rsize + RZ > ASZ || size > (size_t(1) << 28)) {
-            // a request no caller could mean (garbage size after memory corruption, runaway growth): in a real
-            // process operator new would throw and the -fno-exceptions library would terminate
-            g_in_rt = false;
+        if (size > (size_t(1) << 28)) {
+            // a request no caller could mean (garbage size after memory corruption): in a real process operator
+            // new would throw and the -fno-exceptions library would terminate
             add_violation("alloc-huge", "", "allocation request of " + std::to_string(size) + " bytes", true);
+            abort_run();
+        }
+        if (o + rsize + RZ > ASZ) {
+            // simulator resource limit (quarantine never reuses memory): give the run up, it is not a finding
+            g_probes["sim.arena-exhausted-run-abandoned"]++; // (still under the caller's RtGuard: node comes from malloc)
             abort_run();
         }
         off    = (uint32_t)o;
@@ -395,6 +399,23 @@ void clear_shared_ro_all() {
         b.owner     = -1;
     }
 }
+uint64_t digest_shared() {
+    uint64_t h = 1469598103934665603ULL;
+    for (auto &b : g_blocks) {
+        if (b.state != 0 || !b.shared_ro) continue;
+        const uint8_t *p = A + b.off;
+        h ^= b.size;
+        h *= 1099511628211ULL;
+        for (uint32_t i = 0; i < b.size; i++) {
+            h ^= p[i];
+            h *= 1099511628211ULL;
+        }
+    }
+    return h;
+}
+uint64_t steps_now() {
+    return g_steps;
+}
 void set_block_owner_task(void *p, int task) {
     if (p == nullptr) return;
     uintptr_t d = (uintptr_t)p - (uintptr_t)A;
@@ -410,6 +431,18 @@ size_t live_lib_blocks() {
 }
 uint32_t heap_serial() {
     return (uint32_t)g_blocks.size();
+}
+void check_leaks(const char *world) {
+    if (g_aborted || g_live_lib == 0) return;
+    RtGuard     g;
+    std::string sites;
+    int         n = 0;
+    for (auto &b : g_blocks) {
+        if (b.state != 0 || b.kind != BK_LIB) continue;
+        if (n < 3) sites += (n ? "; " : "") + site_names(b) + " (" + std::to_string(b.size) + " bytes)";
+        n++;
+    }
+    add_violation("leak", world, std::to_string(n) + " library block(s) still allocated after every object was destroyed: " + sites, false);
 }
 
 LibCall::LibCall() {
@@ -650,7 +683,17 @@ void runtime_init() {
 void run_begin(const RunCfg &cfg) {
     RtGuard g;
     // reset arena
-    if (g_bump) memset(G, 0, ((g_bump + RZ) / GR + 1) * sizeof(uint32_t));
+    if (g_bump) {
+        const size_t keep = size_t(32) << 20;
+        if (g_bump > keep) {
+            // give the physical pages of an unusually large run back
+            madvise(A + keep, ((g_bump + RZ - keep) + 4095) & ~size_t(4095), MADV_DONTNEED);
+            madvise((uint8_t *)G + (keep / GR) * sizeof(uint32_t), ((((g_bump + RZ - keep) / GR + 1) * sizeof(uint32_t)) + 4095) & ~size_t(4095), MADV_DONTNEED);
+            memset(G, 0, (keep / GR) * sizeof(uint32_t));
+        } else {
+            memset(G, 0, ((g_bump + RZ) / GR + 1) * sizeof(uint32_t));
+        }
+    }
     g_bump = 0;
     g_blocks.clear();
     g_free.clear();
@@ -1042,7 +1085,9 @@ using namespace qsim;
 extern "C" {
 
 int qentem_verif_exact_fit() {
-    return g_exact_fit ? 1 : 0;
+    // exact-fit growth makes every append reallocate; under quarantine that is quadratic in memory, so the knob
+    // switches itself off once a run has used 32 MiB of arena
+    return (g_exact_fit && g_bump < (size_t(32) << 20)) ? 1 : 0;
 }
 
 void qsim_memrec_add(void *) {
